@@ -78,11 +78,13 @@ func Create(filename string, archiveInfoList []ArchiveInfo, aggregationMethod Ag
 
 	fileSize := h.ExpectedFileSize()
 	if err := w.file.Truncate(fileSize); err != nil {
+		w.file.Close()
 		return nil, err
 	}
 	w.fileBuf = filebuffer.New(w.file, fileSize, w.pageSize)
 
 	if err := w.putHeader(); err != nil {
+		w.file.Close()
 		return nil, err
 	}
 	return w, nil
@@ -108,12 +110,14 @@ func Open(filename string, opts ...Option) (*Whisper, error) {
 
 	st, err := w.file.Stat()
 	if err != nil {
+		w.file.Close()
 		return nil, fmt.Errorf("stat: %s: %s", filename, err)
 	}
 
 	w.fileBuf = filebuffer.New(w.file, st.Size(), w.pageSize)
 
 	if err := w.readHeader(); err != nil {
+		w.file.Close()
 		return nil, fmt.Errorf("readHeader: %s: %s", filename, err)
 	}
 	return w, nil
